@@ -10,6 +10,7 @@ import (
 	"fmt"
 	"os"
 	"reflect"
+	"strings"
 	"time"
 
 	"github.com/alicebob/sqlittle"
@@ -175,6 +176,23 @@ func doLife(r scanReq) (res scanRes) {
 		}, "id", r.Col, r.Col, r.Col)
 		return
 	}
+	// everything the table holds, as one string (all rows, all columns, values copied)
+	snap := func(h *sqlittle.DB) string {
+		cols, err := h.Columns(r.Table)
+		if err != nil {
+			return "columns: " + err.Error()
+		}
+		out := ""
+		err = h.Select(r.Table, func(row sqlittle.Row) {
+			b, _ := json.Marshal(encVals(append([]interface{}{}, row...)))
+			out += string(b) + "\n"
+		}, cols...)
+		if err != nil {
+			out += "error: " + err.Error()
+		}
+		return out
+	}
+	before := snap(db)
 	b1, s1, keep, err := read(db)
 	if err != nil {
 		res.Err = err.Error()
@@ -208,6 +226,16 @@ func doLife(r scanReq) (res scanRes) {
 	for i := range b1 {
 		b1[i] = 'M'
 	}
+	// ... and everything up to the capacity of the slice it was given (what append would do)
+	ext := b1[:cap(b1)]
+	for i := len(b1); i < len(ext); i++ {
+		ext[i] = 'M'
+	}
+	ext2 := keep[:cap(keep)]
+	for i := len(keep); i < len(ext2); i++ {
+		ext2[i] = 'K'
+	}
+	life["all_rows_after_mutate"] = snap(db) == before && !strings.HasPrefix(before, "columns:") && !strings.Contains(before, "error:")
 	b2, _, _, err := read(db) // same handle: warm page cache
 	life["reread_same_handle"] = err == nil && bytes.Equal(b2, orig)
 	db2, err := sqlittle.Open(r.DB)
